@@ -171,7 +171,7 @@ void h_misc(void)
 	}
 	struct netbuf_read * N = netbuf_read_init(5);
 	ASSUME(N != NULL);
-	CHECK(N->bufpos == 0 && N->datalen == 0 && N->buflen == 4096 && VH_EXACT_OBJECT(N->buf, 4096) && N->read_cookie == NULL && N->immediate_cookie == NULL && N->s == 5, "init establishes the invariant with a 4096-byte buffer");
+	CHECK(N->bufpos == 0 && N->datalen == 0 && N->buflen >= 1 && VH_EXACT_OBJECT(N->buf, N->buflen) && N->read_cookie == NULL && N->immediate_cookie == NULL && N->s == 5, "init establishes the invariant with a non-empty buffer");
 	netbuf_read_free(N);
 	REACHED();
 }
